@@ -11,6 +11,7 @@ import (
 	"time"
 
 	"github.com/arloliu/go-secs/v2/hsms"
+	"github.com/arloliu/go-secs/v2/hsmsss"
 	"github.com/arloliu/go-secs/v2/secs2"
 	"github.com/arloliu/go-secs/v2/verifsim/core"
 	"github.com/arloliu/go-secs/v2/verifsim/refhsms"
@@ -73,6 +74,12 @@ type scenario struct {
 	LinkFaults []linkFault
 	CloseAt    time.Duration // application Close (0 = none)
 	Linktest   time.Duration
+	// BadBodies: a third of the data frames the peer sends (replies of every kind, unsolicited ones)
+	// carry a body that is not valid SECS-II; DecodeHandlers: the application has decode-error handlers
+	// registered. A malformed reply still belongs to its waiting sender (returned together with the
+	// decode error); only messages nobody waits for go to the decode-error handlers.
+	BadBodies      bool
+	DecodeHandlers bool
 }
 
 type linkFault struct {
@@ -98,6 +105,7 @@ type harness struct {
 	held        *refhsms.RxFrame
 	heldC       *refhsms.Conn
 	nRep        int
+	badTok      map[string]bool
 	pending     int
 	closedAt    time.Duration
 	actionsUsed map[string]int
@@ -112,6 +120,10 @@ func genScenario(t *core.Tape, faulty bool) scenario {
 	sc.T6 = []time.Duration{5 * time.Second, time.Second}[t.Choose("scn", 2)]
 	if t.Choose("scn", 3) == 2 {
 		sc.Linktest = []time.Duration{time.Second, 300 * time.Millisecond}[t.Choose("scn", 2)]
+	}
+	if t.Choose("scn", 3) == 0 {
+		sc.BadBodies = true
+		sc.DecodeHandlers = t.Choose("scn", 3) != 0
 	}
 	ns := 1 + t.Choose("scn", 6)
 	for s := 0; s < ns; s++ {
@@ -159,13 +171,22 @@ func Build(config string) core.BuildFunc {
 	}
 
 	return func(w *core.World) *core.Scenario {
-		h := &harness{w: w, actionsUsed: map[string]int{}}
+		h := &harness{w: w, actionsUsed: map[string]int{}, badTok: map[string]bool{}}
 		h.sc = genScenario(w.T, config == "faulty")
 		sc := h.sc
 		reSession := w.T.Choose("trace", 4) == 0
-		h.r = rig.New(w, rig.Opts{TraceTraffic: w.T.Choose("trace", 4) == 0, ValidateSession: reSession, Active: sc.Active, Equip: sc.Equip, T3: sc.T3, T6: sc.T6, T7: 30 * time.Second,
+		h.r = rig.New(w, rig.Opts{TraceTraffic: w.T.Choose("trace", 4) == 0, ValidateSession: reSession, DecodeErrHandlers: sc.DecodeHandlers, Active: sc.Active, Equip: sc.Equip, T3: sc.T3, T6: sc.T6, T7: 30 * time.Second,
 			Linktest: sc.Linktest, BackoffInit: 100 * time.Millisecond, T5: time.Second})
 		r := h.r
+		if w.T.Choose("scn", 3) == 0 {
+			// a long-lived connection: the System Bytes counter is a few allocations away from its 2^32
+			// wrap, so the transactions of this run straddle it (uniqueness among the open ones still holds)
+			v := uint32(0xFFFFFFFF - uint32(w.T.Choose("scn", 6)))
+			if !hsmsss.VerifSetSystemBytes(r.C, v) {
+				w.Fail("HARNESS", "VerifSetSystemBytes refused the connection")
+			}
+			w.Probe("system_bytes_counter_near_wrap")
+		}
 		r.N.Seg = func(p *simnetPipe, n int) []segPlan { return h.seg(n) }
 		r.P.OnFrame = h.onFrame
 		for _, s := range sc.Senders {
@@ -341,8 +362,24 @@ func (s secs2Msg) Item() secs2.Item    { it, _ := s.m.Item(); return it }
 func (h *harness) replyBody(sys uint32) (string, []byte) {
 	h.nRep++
 	tok := fmt.Sprintf("r%d-%d", sys, h.nRep)
+	if h.sc.BadBodies && h.w.T.Choose("peer", 3) == 0 {
+		// a list that claims two children and holds one: the frame is fine, the body is not SECS-II
+		h.w.Probe("peer_data_frame_with_undecodable_body")
+		h.badTok[tok] = true
+
+		return tok, append([]byte{0x01, 0x02}, refhsms.ASCII(tok)...)
+	}
 
 	return tok, refhsms.ASCII(tok)
+}
+
+// tokOf reads the token of a data body the peer or the library produced (valid or the malformed form).
+func tokOf(b []byte) (string, bool) {
+	if len(b) > 2 && b[0] == 0x01 && b[1] == 0x02 {
+		return refhsms.ParseASCII(b[2:])
+	}
+
+	return refhsms.ParseASCII(b)
 }
 
 func (h *harness) sendData(c *refhsms.Conn, hd refhsms.Header, forSys uint32, kind string, delay time.Duration) {
@@ -660,7 +697,7 @@ func (h *harness) final(reason string) {
 		if c.Err == nil || (c.Reply != nil && cls != "reject") {
 			got = "reply"
 			body := c.Reply.AppendBodyTo(nil)
-			gotTok, _ = refhsms.ParseASCII(body)
+			gotTok, _ = tokOf(body)
 			hb := c.Reply.HeaderBytes()
 			rh := refhsms.Unpack(hb[:])
 			if rh.Sys != sys {
@@ -742,6 +779,11 @@ func (h *harness) final(reason string) {
 
 			return
 		}
+		if got == "reply" && h.badTok[gotTok] != (c.Err != nil) {
+			w.Fail("BODY_VERDICT", "call %s returned reply %s with error %v; the body the peer sent is valid SECS-II: %v (a malformed reply is returned to its sender together with the decode error, a valid one without)", c.ID, gotTok, c.Err, !h.badTok[gotTok])
+
+			return
+		}
 		if c.TRet != first {
 			w.Fail("LATE_RETURN", "call %s: outcome %s was due at %v but the call returned at %v", c.ID, got, first, c.TRet)
 
@@ -788,7 +830,7 @@ func (h *harness) checkRouting(_ any, returnedTok map[string]*call, genEnd, clos
 	perHandler := make([][]string, nh)
 	count := map[string][]int{}
 	for _, d := range h.r.Deliveries {
-		tok, ok := refhsms.ParseASCII(d.Body)
+		tok, ok := tokOf(d.Body)
 		if !ok {
 			continue
 		}
